@@ -12,6 +12,12 @@ import PyamgV.Proofs.ExtC10bCFit
 import PyamgV.Proofs.ExtC10bGmresArr
 import PyamgV.Proofs.ExtC10bGmresFull
 import PyamgV.Proofs.ExtC10cComplex
+import PyamgV.Proofs.ExtC10dEnergy
+import PyamgV.Proofs.ExtC10dHierarchy
+import PyamgV.Proofs.ExtC10dExample
+import PyamgV.Proofs.ExtC10dSubset
+import PyamgV.Proofs.C19Filter
+import PyamgV.Proofs.ExtC19Trunc
 import Mathlib.Analysis.Real.Sqrt
 import Mathlib.Tactic.IntervalCases
 import Mathlib.Algebra.Order.Ring.Rat
@@ -36,7 +42,13 @@ arbitrary matrix, `Bᴴ` in the code).  Extension E24 adds: the pattern-restrict
 GMRES energy-minimisation loop (executable model `energyGmres`, property proved for every input on which
 the model returns).  Extension E48 adds: the CG / CGNR energy-minimisation loop (`energyCG`, property proved for
 every input), filtered Jacobi (`filteredLoop`, every input on which it returns), and the complex code paths:
-the constraint theorem with `Bᴴ` over rings with involution and the same models run on Gaussian rationals. -/
+the constraint theorem with `Bᴴ` over rings with involution and the same models run on Gaussian rationals.
+Extension E53 adds: the whole of `energy_prolongation_smoother` as one executable model (`C10dM.energyFullCG` /
+`energyFullGmres`: pattern selection with `degree` / `prefilter` / root rows composed from the C19 models of
+`filter_matrix_rows` and `truncate_rows`, `filter_operator` pass, Krylov loop, `postfilter` and its second pass; ops
+`ext_c10d_energy`), the property for it on every input on which it returns, the proof that a block-diagonal
+preconditioner always has the row block size of the pattern, and the level loop of `smoothed_aggregation_solver` /
+`rootnode_solver` (`C10dM.hierarchy`, op `ext_c10d_hier`) with the property for every level. -/
 namespace PyamgV.Props.C10
 open PyamgV
 
@@ -384,7 +396,124 @@ hypotheses of `cgC_run_plain` for cg and cgnr, makes two updates and changes `T`
 restate cgC_example := PyamgV.C10c.exC_plain
 restate cgC_example_moves := PyamgV.C10c.exC_moves
 
+/-! ## extension E53
+
+### the whole of `energy_prolongation_smoother` (`Model/ExtC10dEnergy.lean`)
+
+`C10dM.energyPattern` is the pattern handed to `compute_BtBinv`: `Atilde^degree·pattern(T)` computed as SciPy's
+`csr_matmat` does (`spmmRow`), filtered by `C19.filterRowsMax` (`theta`) / `C19.truncateRows` (`k`; `qsort_twoarrays`) or
+the union of both, turned into blocks (`patOf`), root rows replaced (`rootPat`); for `degree = 0` the filters act on
+the entries of `T` itself.  `C10dM.energyFull` runs `filter_operator` + root reset when the code does, the Krylov loop
+(parameter), and for a post-filter the second pass on the blocks of the filtered prolongator.  The check compares the
+patterns exactly and the result with tolerance (`ext_c10d_energy`). -/
+
+/-- what the `theta` filter keeps in a row: exactly the entries with `|a|² ≥ θ²·max|a_k|²` (C19, about the function
+the model calls) -/
+restate prefilter_theta_rule := PyamgV.C19.filterRowsMax_getD
+/-- what the `k` filter keeps: a rearrangement of the row with all but `k` entries zeroed, none of them larger than a kept one -/
+restate prefilter_k_rule := PyamgV.C19.truncateRow_spec_unconditional
+/-- **the selected pattern lies inside the matrix**, every option, every input -/
+restate energy_pattern_inside := PyamgV.C10d.energyPattern_patIn
+/-- the `theta` rule, the `k` rule, their union and `eliminate_zeros` only drop stored entries -/
+restate prefilter_only_removes := PyamgV.C10d.applyFilt_sub
+/-- **the pre-filtered pattern lies inside the unfiltered pattern** `Atilde^degree·pattern(T)` (same root rows) -/
+restate energy_pattern_subset := PyamgV.C10d.energyPattern_subset
+/-- one projected row with an arbitrary right-hand side `Y`: `row·B` drops by `Y_i` -/
+restate project_row_any_rhs := PyamgV.C10d.row_general
+restate project_dense_any_rhs := PyamgV.C10d.projectDense_rows
+/-- **`filter_operator`, executable model, every input on which it returns**: `(A'·B)_i = Bf_i` on every row with a
+non-empty pattern row, zero outside the pattern, shape kept (closes the model side of `filter_operator_row_partial`:
+the model returns only when every local Gram matrix is invertible) -/
+restate filter_operator_model_spec := PyamgV.C10d.filterOperator_spec
+/-- `filter_operator` then `I_F·T + P_I`: fitted prolongator (`P·B_c = B` row-wise, support in the pattern, identity rows) -/
+restate energy_fitted_of_filter := PyamgV.C10d.fitted_of_filter
+/-- a Krylov run that satisfies `C10c.Rel` keeps a fitted prolongator fitted -/
+restate energy_fitted_kept := PyamgV.C10d.fitted_rel
+/-- the cg / cgnr and gmres loops satisfy `Rel` as parameters of the composed model -/
+restate energy_cg_loop_ok := PyamgV.C10d.kryCG_ok
+restate energy_gmres_loop_ok := PyamgV.C10d.kryGmres_ok
+/-- the composed model with any admissible Krylov loop -/
+restate energy_full_property := PyamgV.C10d.energyFull_property
+/-- **block-diagonal preconditioners**: a call that passes the input test `T.blocksize[0] == A.blocksize[0]` builds its
+preconditioner with `A`'s block size, which is the row block size of every pattern of the run: the restriction `PreOK`
+of `gmres_run_property` / `cg_run_property` is never violated by the function (calls with another block size raise
+`ValueError`; the check verifies that on the real code) -/
+restate energy_cg_precond_blocksize := PyamgV.C10d.energyFullCG_precond
+restate energy_gmres_precond_blocksize := PyamgV.C10d.energyFullGmres_precond
+/-- **`energy_prolongation_smoother`, cg / cgnr, every option, every input on which the model returns**: the selected
+pattern is `energyPattern`; without a fitting pass `(P − T)·B_c = 0` on the non-root rows and `supp(P − T)` inside that
+(pre-filtered) pattern; with extra candidates or a post-filter `P·B_c = B` row by row, `supp(P)` inside the pattern of
+the last pass (after a post-filter: the blocks the filter kept), identity rows at the roots -/
+restate energy_full_cg_property := PyamgV.C10d.energyFullCG_property
+/-- the same with gmres -/
+restate energy_full_gmres_property := PyamgV.C10d.energyFullGmres_property
+
+/-- hence `supp(P − T) ⊆ Atilde^degree·pattern(T)` for every pre-filter (the clause the NumPy oracle judges) -/
+restate energy_support_unfiltered := PyamgV.C10d.energyFull_support_unfiltered
+
+/-! ### whole hierarchies (`Model/ExtC10dHierarchy.lean`)
+
+`C10dM.hierarchy` is the level loop of `smoothed_aggregation_solver` / `rootnode_solver` from the fit on
+(`fit_candidates` kernel model, `scale_T`, the composed energy model / unfiltered Jacobi / Richardson / `smooth = None`,
+`A ← Pᴴ A P`, `B ← B_c`), the
+aggregation and the strength matrix of every level being inputs (`keep=True` data of the real run). -/
+
+/-- the levels are chained by the Galerkin product and the coarse candidates -/
+restate hierarchy_chain := PyamgV.C10d.hierarchy_chain
+/-- **every level**: what holds for every successful level step holds for every level of a hierarchy -/
+restate hierarchy_levels := PyamgV.C10d.hierarchy_levels
+/-- the decided validity of the aggregation arrays implies `ValidAgg` -/
+restate hierarchy_valid_agg := PyamgV.C10d.validAggB_sound
+/-- the dense `T` of a level is `kernelT` entry by entry -/
+restate hierarchy_dense_T := PyamgV.C10d.denseT_get
+/-- **smoothed aggregation, each level: `T·B_c = B − drop` on every aggregated unknown** (ordered field, exact square root) -/
+restate level_fit_reproduces := PyamgV.C10d.levelStep_fit
+/-- **each level: the smoother's clause** for the level's own `A`, `T`, `B_c`, `B` -/
+restate level_smoothed := PyamgV.C10d.levelStep_smoothed
+restate level_smooth_none := PyamgV.C10d.smoNone_spec
+/-- Jacobi (diagonal / local / block weighting) and Richardson smoothers without `filter_entries`: `P` is the iterate of
+`P ← P − M·P` with the scaled matrix of the level's own `A` and the weight `omega/rho` the real run used ... -/
+restate level_smooth_jacobi := PyamgV.C10d.smoJacobi_spec
+/-- ... which is the polynomial `(I − M)^degree·T` (`smoothing_polynomial` for the array model, any `n × n` scaled matrix) -/
+restate smooth_loop_polynomial := PyamgV.C10d.smoothLoop_polynomial
+/-- energy smoothers: `FullProp` (`(P − T)·B_c = 0` + pattern, or `P·B_c = B` + pattern + identity rows) on each level -/
+restate level_smooth_energy_cg := PyamgV.C10d.smoEnergyCG_spec
+restate level_smooth_energy_gmres := PyamgV.C10d.smoEnergyGmres_spec
+/-- **root-node levels**: identity rows at the root dofs in `T`, coarse candidates = fine candidates at the root dofs -/
+restate level_root := PyamgV.C10d.levelStep_root
+/-- ... and in `P` -/
+restate level_root_rows_kept := PyamgV.C10d.fullProp_root_rows
+
+/-- **every level of a smoothed-aggregation hierarchy with an energy smoother (cg / cgnr) satisfies the constrained
+smoothing clauses** for its own `T`, `B_c`, `B`: the composition of `hierarchy_levels`, `level_smoothed` and
+`level_smooth_energy_cg`, spelled out -/
+theorem hierarchy_energy_cg_levels {K : Type} [Field K] [DecidableEq K] (ops : PyamgV.C10M.FitOps K K) (conj rnd : K → K)
+    (root : Bool) (tolfit : K) (nsq : K → Rat) (absf : K → K) (lt : K → K → Bool) (cgnr : Bool) (wt : Nat)
+    (o : PyamgV.C10dM.Opts) (tol tol2 : K) (ins : List (PyamgV.C10dM.LvlIn K)) (K1 : Nat) (A B : PyamgV.C10M.Mat K)
+    (outs : List (PyamgV.C10dM.LvlOut K (PyamgV.C10dM.Out K (PyamgV.C10M.EnergyOut K))))
+    (h : PyamgV.C10dM.hierarchy ops conj rnd root tolfit
+      (PyamgV.C10dM.smoEnergyCG nsq absf conj lt cgnr wt o tol tol2) ins K1 A B = .ok outs) :
+    List.Forall₂ (fun L out => out.diag.P = out.P ∧
+      PyamgV.C10d.FullProp nsq o (L.nFine * out.K1) (L.nCol * (if root then out.K1 else out.B.cols)) out.Bc.cols out.K1
+        (if root then out.K1 else out.B.cols) L.atilde (PyamgV.C10dM.tpatOf L.nFine L.nCol L.cp L.ci) out.T out.Bc out.B
+        L.cpts out.diag) ins outs := by
+  refine PyamgV.C10d.hierarchy_levels ops conj rnd root tolfit _ _ ?_ ins K1 A B outs h
+  intro L K1' A' B' out hout
+  obtain ⟨e1, e2, e3⟩ := PyamgV.C10d.levelStep_io ops conj rnd root tolfit _ L K1' A' B' out hout
+  have := PyamgV.C10d.levelStep_smoothed ops conj rnd root tolfit _ _
+    (PyamgV.C10d.smoEnergyCG_spec nsq absf conj lt cgnr wt o tol tol2) L K1' A' B' out hout
+  rw [e1, e3]
+  exact this
+
 /-! ## non-vacuity -/
+
+/-- the composed energy model on a concrete root-node input with a post-filter: both passes are made, `T` moves,
+`P·B_c = B`; every hypothesis of `energy_full_cg_property` holds -/
+restate energy_full_example_runs := PyamgV.C10d.exFull_runs
+restate energy_full_example_property := PyamgV.C10d.exFull_property
+/-- a level step over the real numbers with the real square root returns: the hypotheses of `level_fit_reproduces` /
+`level_smoothed` are satisfiable -/
+restate level_example_runs := PyamgV.C10d.exLevel_runs
 
 /-- the hypotheses on the square root hold for the real numbers, so the tentative-prolongator
 theorems apply to every real input with the default `tol = 1e-10` -/
